@@ -100,6 +100,33 @@ def describe(r):
             "values_orders": ds["values_orders"]}
 
 
+def check_enumerators(drv, rng, stats):
+    """`consecutive_combinations` / `nan_combinations` of the code against the enumerators the theorems are about
+    (`Comb.consecutiveCombinations`, `Comb.nanCombinations`; `consecutiveCombinations_iff`, `nanCombinations_iff`): the same
+    candidate groupings, for every order of 1..7 labels (one chunk in turn) and max_n_mod 1..6, plus random longer ones"""
+    from AutoCarver.carvers.base_carver import consecutive_combinations, nan_combinations
+    fails = []
+    cases = [(k, m) for k in range(1, 8) for m in range(1, 7)] + [(rng.randint(8, 10), rng.randint(2, 4)) for _ in range(2)]
+    for k, m in cases:
+        order = [f"m{i}" for i in range(k)]
+        for nan in (None, "__NAN__"):
+            impl = consecutive_combinations(list(order), m, min_group_size=1) if nan is None else nan_combinations(list(order), nan, m)
+            req = {"op": "combos", "order": order, "max_n_mod": m}
+            if nan is not None:
+                req["nan"] = nan
+            model = drv.call(req)
+            stats["enumerations"] = stats.get("enumerations", 0) + 1
+            a = sorted(json.dumps(c) for c in impl)
+            b = sorted(json.dumps(c) for c in model) if isinstance(model, list) else model
+            if a != b:
+                fails.append({"kind": "correspondence", "what": "the candidate groupings enumerated by the code differ from the model's enumerator",
+                              "order": order, "max_n_mod": m, "nan": nan, "only_impl": [x for x in a if not isinstance(b, list) or x not in b][:5],
+                              "only_model": [x for x in b if x not in a][:5] if isinstance(b, list) else b})
+            elif [json.dumps(c) for c in impl] == [json.dumps(c) for c in model]:
+                stats["enumerations_same_order"] = stats.get("enumerations_same_order", 0) + 1
+    return fails
+
+
 def worker(args):
     n, seed = args
     core.import_repo()
@@ -109,6 +136,7 @@ def worker(args):
     stats = {"cases": 0, "features": 0, "kept": 0, "dropped": 0, "base_error": 0, "fit_errors": {}, "model_outcomes": {},
              "tie_cases": 0, "with_dev": 0}
     try:
+        fails += check_enumerators(drv, random.Random(seed), stats)
         for _ in range(n):
             r = gen(rng)
             if rng.random() < 0.1:
